@@ -8,80 +8,114 @@ import (
 	"verif/sched"
 )
 
-func point(desc string, obj any) {
+func pointOn(desc string, cell *sched.HB, code uint64) {
 	if s := sched.Current(); s.Active() {
-		s.Yield(desc, obj)
+		s.YieldOn(desc, cell, code)
 	}
 }
 
-type Int64 struct{ v atomic.Int64 }
+// point is used by the function forms (no place for a cell inside the variable): one cell per address and execution.
+func point(desc string, obj any) {
+	if s := sched.Current(); s.Active() {
+		cells := s.Local("vatomic.cells", func() any { return map[any]*sched.HB{} }).(map[any]*sched.HB)
+		c := cells[obj]
+		if c == nil {
+			c = &sched.HB{}
+			cells[obj] = c
+		}
+		s.YieldOn(desc, c, 99)
+	}
+}
 
-func (x *Int64) Load() int64           { point("atomic.Int64.Load", x); return x.v.Load() }
-func (x *Int64) Store(v int64)         { point("atomic.Int64.Store", x); x.v.Store(v) }
-func (x *Int64) Add(d int64) int64     { point("atomic.Int64.Add", x); return x.v.Add(d) }
-func (x *Int64) Swap(v int64) int64    { point("atomic.Int64.Swap", x); return x.v.Swap(v) }
+type Int64 struct {
+	v  atomic.Int64
+	hb sched.HB
+}
+
+func (x *Int64) Load() int64           { pointOn("atomic.Int64.Load", &x.hb, 40); return x.v.Load() }
+func (x *Int64) Store(v int64)         { pointOn("atomic.Int64.Store", &x.hb, 41); x.v.Store(v) }
+func (x *Int64) Add(d int64) int64     { pointOn("atomic.Int64.Add", &x.hb, 42); return x.v.Add(d) }
+func (x *Int64) Swap(v int64) int64    { pointOn("atomic.Int64.Swap", &x.hb, 43); return x.v.Swap(v) }
 func (x *Int64) CompareAndSwap(o, n int64) bool {
-	point("atomic.Int64.CompareAndSwap", x)
+	pointOn("atomic.Int64.CompareAndSwap", &x.hb, 44)
 	return x.v.CompareAndSwap(o, n)
 }
 
-type Int32 struct{ v atomic.Int32 }
+type Int32 struct {
+	v  atomic.Int32
+	hb sched.HB
+}
 
-func (x *Int32) Load() int32           { point("atomic.Int32.Load", x); return x.v.Load() }
-func (x *Int32) Store(v int32)         { point("atomic.Int32.Store", x); x.v.Store(v) }
-func (x *Int32) Add(d int32) int32     { point("atomic.Int32.Add", x); return x.v.Add(d) }
-func (x *Int32) Swap(v int32) int32    { point("atomic.Int32.Swap", x); return x.v.Swap(v) }
+func (x *Int32) Load() int32           { pointOn("atomic.Int32.Load", &x.hb, 40); return x.v.Load() }
+func (x *Int32) Store(v int32)         { pointOn("atomic.Int32.Store", &x.hb, 41); x.v.Store(v) }
+func (x *Int32) Add(d int32) int32     { pointOn("atomic.Int32.Add", &x.hb, 42); return x.v.Add(d) }
+func (x *Int32) Swap(v int32) int32    { pointOn("atomic.Int32.Swap", &x.hb, 43); return x.v.Swap(v) }
 func (x *Int32) CompareAndSwap(o, n int32) bool {
-	point("atomic.Int32.CompareAndSwap", x)
+	pointOn("atomic.Int32.CompareAndSwap", &x.hb, 44)
 	return x.v.CompareAndSwap(o, n)
 }
 
-type Uint64 struct{ v atomic.Uint64 }
+type Uint64 struct {
+	v  atomic.Uint64
+	hb sched.HB
+}
 
-func (x *Uint64) Load() uint64          { point("atomic.Uint64.Load", x); return x.v.Load() }
-func (x *Uint64) Store(v uint64)        { point("atomic.Uint64.Store", x); x.v.Store(v) }
-func (x *Uint64) Add(d uint64) uint64   { point("atomic.Uint64.Add", x); return x.v.Add(d) }
-func (x *Uint64) Swap(v uint64) uint64  { point("atomic.Uint64.Swap", x); return x.v.Swap(v) }
+func (x *Uint64) Load() uint64          { pointOn("atomic.Uint64.Load", &x.hb, 40); return x.v.Load() }
+func (x *Uint64) Store(v uint64)        { pointOn("atomic.Uint64.Store", &x.hb, 41); x.v.Store(v) }
+func (x *Uint64) Add(d uint64) uint64   { pointOn("atomic.Uint64.Add", &x.hb, 42); return x.v.Add(d) }
+func (x *Uint64) Swap(v uint64) uint64  { pointOn("atomic.Uint64.Swap", &x.hb, 43); return x.v.Swap(v) }
 func (x *Uint64) CompareAndSwap(o, n uint64) bool {
-	point("atomic.Uint64.CompareAndSwap", x)
+	pointOn("atomic.Uint64.CompareAndSwap", &x.hb, 44)
 	return x.v.CompareAndSwap(o, n)
 }
 
-type Uint32 struct{ v atomic.Uint32 }
+type Uint32 struct {
+	v  atomic.Uint32
+	hb sched.HB
+}
 
-func (x *Uint32) Load() uint32          { point("atomic.Uint32.Load", x); return x.v.Load() }
-func (x *Uint32) Store(v uint32)        { point("atomic.Uint32.Store", x); x.v.Store(v) }
-func (x *Uint32) Add(d uint32) uint32   { point("atomic.Uint32.Add", x); return x.v.Add(d) }
-func (x *Uint32) Swap(v uint32) uint32  { point("atomic.Uint32.Swap", x); return x.v.Swap(v) }
+func (x *Uint32) Load() uint32          { pointOn("atomic.Uint32.Load", &x.hb, 40); return x.v.Load() }
+func (x *Uint32) Store(v uint32)        { pointOn("atomic.Uint32.Store", &x.hb, 41); x.v.Store(v) }
+func (x *Uint32) Add(d uint32) uint32   { pointOn("atomic.Uint32.Add", &x.hb, 42); return x.v.Add(d) }
+func (x *Uint32) Swap(v uint32) uint32  { pointOn("atomic.Uint32.Swap", &x.hb, 43); return x.v.Swap(v) }
 func (x *Uint32) CompareAndSwap(o, n uint32) bool {
-	point("atomic.Uint32.CompareAndSwap", x)
+	pointOn("atomic.Uint32.CompareAndSwap", &x.hb, 44)
 	return x.v.CompareAndSwap(o, n)
 }
 
-type Bool struct{ v atomic.Bool }
+type Bool struct {
+	v  atomic.Bool
+	hb sched.HB
+}
 
-func (x *Bool) Load() bool         { point("atomic.Bool.Load", x); return x.v.Load() }
-func (x *Bool) Store(v bool)       { point("atomic.Bool.Store", x); x.v.Store(v) }
-func (x *Bool) Swap(v bool) bool   { point("atomic.Bool.Swap", x); return x.v.Swap(v) }
+func (x *Bool) Load() bool         { pointOn("atomic.Bool.Load", &x.hb, 40); return x.v.Load() }
+func (x *Bool) Store(v bool)       { pointOn("atomic.Bool.Store", &x.hb, 41); x.v.Store(v) }
+func (x *Bool) Swap(v bool) bool   { pointOn("atomic.Bool.Swap", &x.hb, 43); return x.v.Swap(v) }
 func (x *Bool) CompareAndSwap(o, n bool) bool {
-	point("atomic.Bool.CompareAndSwap", x)
+	pointOn("atomic.Bool.CompareAndSwap", &x.hb, 44)
 	return x.v.CompareAndSwap(o, n)
 }
 
-type Pointer[T any] struct{ v atomic.Pointer[T] }
+type Pointer[T any] struct {
+	v  atomic.Pointer[T]
+	hb sched.HB
+}
 
-func (x *Pointer[T]) Load() *T         { point("atomic.Pointer.Load", x); return x.v.Load() }
-func (x *Pointer[T]) Store(v *T)       { point("atomic.Pointer.Store", x); x.v.Store(v) }
-func (x *Pointer[T]) Swap(v *T) *T     { point("atomic.Pointer.Swap", x); return x.v.Swap(v) }
+func (x *Pointer[T]) Load() *T         { pointOn("atomic.Pointer.Load", &x.hb, 40); return x.v.Load() }
+func (x *Pointer[T]) Store(v *T)       { pointOn("atomic.Pointer.Store", &x.hb, 41); x.v.Store(v) }
+func (x *Pointer[T]) Swap(v *T) *T     { pointOn("atomic.Pointer.Swap", &x.hb, 43); return x.v.Swap(v) }
 func (x *Pointer[T]) CompareAndSwap(o, n *T) bool {
-	point("atomic.Pointer.CompareAndSwap", x)
+	pointOn("atomic.Pointer.CompareAndSwap", &x.hb, 44)
 	return x.v.CompareAndSwap(o, n)
 }
 
-type Value struct{ v atomic.Value }
+type Value struct {
+	v  atomic.Value
+	hb sched.HB
+}
 
-func (x *Value) Load() any        { point("atomic.Value.Load", x); return x.v.Load() }
-func (x *Value) Store(v any)      { point("atomic.Value.Store", x); x.v.Store(v) }
+func (x *Value) Load() any        { pointOn("atomic.Value.Load", &x.hb, 40); return x.v.Load() }
+func (x *Value) Store(v any)      { pointOn("atomic.Value.Store", &x.hb, 41); x.v.Store(v) }
 
 func AddInt64(addr *int64, d int64) int64    { point("atomic.AddInt64", addr); return atomic.AddInt64(addr, d) }
 func LoadInt64(addr *int64) int64            { point("atomic.LoadInt64", addr); return atomic.LoadInt64(addr) }
